@@ -89,7 +89,14 @@ def check_accounting(ctx, facts, prefix, names, rule='accounting-balance'):
             leave = 0
             who = []
             if m == 'put':
-                leave = has_let(o, 'old_entry')
+                # LruQueue::put returns the replaced entry: it has left the queue unless that very result was seen to be None
+                puts = [e for e in o.events if e[0] == 'callargs' and e[1].rsplit('::', 1)[-1] == 'put' and 'Queue' in e[1]]
+                leave = 0
+                for pe in puts:
+                    site = 'call:put@%s' % pe[3]
+                    none_seen = any(e[0] == 'variant' and norm_tag(e[1]) == site and e[3] == 'None' for e in o.events)
+                    if not none_seen:
+                        leave += 1
                 who = ['old_entry'] * leave
             elif m == 'remove':
                 leave = 1 if ret_kind(o) == 'Some' else 0
